@@ -25,6 +25,10 @@ from ..rules.effects import PathAnalysis
 
 ID = 'C20'
 
+# the generic data-path rules (sa/rules/closure.py) say nothing about this
+# property (scheduling / failure / scratch / path disclosure)
+GENERIC_SCAN = False
+
 EXPLANATION = (
     "Static analysis. (1) Conditional constant propagation over "
     "run_mapping / OnTheFlyMapper.run under the assumption cloud_safe = "
